@@ -38,7 +38,9 @@ Tolerances (all derived, none fitted):
 """
 import math
 import re
+import warnings
 
+import linear_operator
 import torch
 from hypothesis import strategies as st
 
@@ -522,6 +524,9 @@ def cases(draw, tier):
     if pt is not None:
         sset["preconditioner_tolerance"] = pt
     case["set"] = sset
+    if draw(st.integers(0, 2)) == 0:
+        # a query on the SAME operator object that uses the preconditioner (iterative path) before it is inspected
+        case["warm"] = draw(st.sampled_from(["logdet", "inv_quad_logdet", "solve", "logdet_twice"]))
     return case
 
 
@@ -777,6 +782,22 @@ def run_B(case):
             except Exception as e:
                 _fail("A.exc", "pivoted_cholesky", "exc:" + X.describe(e), "pivoted_cholesky(rank=%d) on %s raised %r" % (k, R.class_path(r_k), e))
             infoA = check_pivchol(src, dt, k, None, _tol_eff(case), Kref, Lref, pivref, min(k, n), labels)
+        if case.get("warm"):
+            labels.append("warm:" + case["warm"])
+            try:
+                with warnings.catch_warnings(), linear_operator.settings.max_cholesky_size(0):
+                    warnings.simplefilter("ignore")
+                    ones = torch.ones(*full_batch, n, 1, dtype=LIT.DT[dt])
+                    if case["warm"] == "solve":
+                        op.solve(ones)
+                    elif case["warm"] == "inv_quad_logdet":
+                        op.inv_quad_logdet(ones, logdet=True)
+                    else:
+                        op.logdet()
+                        if case["warm"] == "logdet_twice":
+                            op.logdet()
+            except Exception:
+                labels.append("warm:raised")  # the warm-up query is judged by C04 / C05; the cache state it leaves is legal
         try:
             res = op._preconditioner()
         except Exception as e:
